@@ -35,6 +35,11 @@ type zvC24Obs struct {
 	maxEstablished int // maximum number of simultaneously Established FSMs seen at any state change
 	ribClients    uint64
 	estLogged     int  // transitions into Established logged so far
+	// the follow-up after the collision is resolved (exploration off): a third connection of the peer arrives while the
+	// survivor is Established (it must be refused with a Cease NOTIFICATION), then the survivor's session ends and a
+	// fourth connection arrives (it must get Established: the peer can come back)
+	laterRan, thirdClosed, thirdCease, thirdEstablished, fourthEstablished bool
+	survivorLeft bool
 	loserCeasedWhileOtherEstablished bool // a connection was ceased straight from OpenSent while the other was already Established (RFC 4271 6.8 last paragraph: the Established one wins whatever the identifiers)
 }
 
@@ -156,6 +161,53 @@ func zvC24Explore(r *vh.Run, c zvC24Case, only []int) {
 			}
 		}
 		obs.ribClients = w.rib4.ClientCount()
+		// follow-up, only when the collision ended as it should (one Established session, nothing else attached)
+		if len(obs.established) == 1 && obs.maxEstablished == 1 && obs.attached <= 1 {
+			obs.laterRan = true
+			handshake := func(zc *zvConn) {
+				zc.deliver(open.bytes())
+				vsched.Settle()
+				if !zc.isClosed() {
+					zc.deliver(zvwKeepalive())
+					vsched.Settle()
+				}
+			}
+			c3 := w.incoming(o)
+			handshake(c3)
+			obs.thirdClosed = c3.isClosed()
+			for _, m := range zvParseStream(c3.out, false, false) {
+				if m.Type == 3 && m.Code == 6 {
+					obs.thirdCease = true
+				}
+			}
+			var survivor *zvConn
+			for _, f := range p.fsms {
+				if zvFSMState(f) == stateNameEstablished {
+					if zc, ok := f.con.(*zvConn); ok && zc == c3 {
+						obs.thirdEstablished = true
+					} else if ok {
+						survivor = zc
+					}
+				}
+			}
+			if survivor != nil && !obs.thirdEstablished {
+				survivor.deliver(zvwNotification(6, 2)) // the remote speaker ends the session (Cease / administrative shutdown)
+				vsched.Settle()
+				obs.survivorLeft = true
+				for _, f := range p.fsms {
+					if zvFSMState(f) == stateNameEstablished {
+						obs.survivorLeft = false
+					}
+				}
+				c4 := w.incoming(o)
+				handshake(c4)
+				for _, f := range p.fsms {
+					if zc, ok := f.con.(*zvConn); ok && zc == c4 && zvFSMState(f) == stateNameEstablished {
+						obs.fourthEstablished = true
+					}
+				}
+			}
+		}
 	}
 	// RFC 4271 6.8 / RFC 6286: which connection survives
 	keep := "dial" // local identifier higher: the connection initiated by the local speaker
@@ -212,6 +264,19 @@ func zvC24Explore(r *vh.Run, c zvC24Case, only []int) {
 			} else if !obs.ceaseOn[loser] {
 				r.Violation(sig("loser-no-cease"), cc, "the losing %s connection was closed without a Cease NOTIFICATION", loser)
 			}
+			if obs.laterRan {
+				r.Count("follow_up_connections", 1)
+				switch {
+				case obs.thirdEstablished:
+					r.Violation(sig("later-connection-replaced-established"), cc, "a third connection of the peer got Established although a session was Established")
+				case !obs.thirdClosed || !obs.thirdCease:
+					r.Violation(sig("later-connection-not-refused"), cc, "a third connection arriving while the survivor is Established was not refused with a Cease NOTIFICATION (closed %v, Cease %v)", obs.thirdClosed, obs.thirdCease)
+				case !obs.survivorLeft:
+					r.Violation(sig("survivor-ignores-notification"), cc, "the surviving session did not end on the peer's NOTIFICATION")
+				case !obs.fourthEstablished:
+					r.Violation(sig("peer-cannot-come-back"), cc, "after the collision was resolved and the surviving session ended, a new connection of the peer (OPEN, KEEPALIVE) does not get Established")
+				}
+			}
 		} else {
 			r.Count("none_established", 1)
 			r.Violation(sig("none-established"), cc, "after both handshakes completed no connection is Established (open: %v)", obs.openConns)
@@ -248,7 +313,7 @@ func TestVerifC24(t *testing.T) {
 		bound = 3
 	}
 	r.Rule(fmt.Sprintf("a peer with a dialled and an accepted connection; the remote speaker sends OPEN and KEEPALIVE on both; every schedule with at most %d deviations from the default schedule (any context switch other than the default one counts) of the two remote handshakes with the FSM goroutines, "+
-		"x {local id < remote, local id > remote, equal ids with local AS < / > remote AS} x {iBGP, eBGP} x {no stall, the local writes on the dialled / on the accepted connection block during the handshakes (full send buffer) and complete afterwards}; invariant at every FSM state change and final-state oracle", bound))
+		"x {local id < remote, local id > remote, equal ids with local AS < / > remote AS} x {iBGP, eBGP} x {no stall, the local writes on the dialled / on the accepted connection block during the handshakes (full send buffer) and complete afterwards}; invariant at every FSM state change and final-state oracle; after every schedule a follow-up without exploration: a third connection while the survivor is Established (must be refused with Cease), then the survivor's session ends and a fourth connection must get Established", bound))
 	r.Require("executions")
 	if r.IsReplay() {
 		var c zvC24Case
